@@ -1077,6 +1077,10 @@ class PackBasedObjectStore(PackCapableObjectStore, PackedObjectContainer):
         for alternate in self.alternates:
             if sha in alternate:
                 return True
+        # A concurrent repack may have moved the object from loose storage
+        # into a new pack between the two lookups above.
+        if self._update_pack_cache() and self.contains_packed(sha):
+            return True
         return False
 
     def _add_cached_pack(self, base_name: str, pack: Pack) -> None:
@@ -1396,6 +1400,13 @@ class PackBasedObjectStore(PackCapableObjectStore, PackedObjectContainer):
             except PackFileDisappeared as exc:
                 self._evict_pack(exc.obj)
         yield from self._iter_loose_objects()
+        # Objects packed by a concurrent repack while the loose objects were
+        # being listed are no longer loose: pick up the packs that appeared.
+        for pack in self._update_pack_cache():
+            try:
+                yield from pack
+            except PackFileDisappeared as exc:
+                self._evict_pack(exc.obj)
         yield from self._iter_alternate_objects()
 
     def contains_loose(self, sha: ObjectID) -> bool:
@@ -1434,6 +1445,14 @@ class PackBasedObjectStore(PackCapableObjectStore, PackedObjectContainer):
         for alternate in self.alternates:
             try:
                 return alternate.get_raw(hexsha)
+            except KeyError:
+                pass
+        # A concurrent repack may have moved the object from loose storage
+        # into a new pack after the packs were searched; look again, like
+        # git's reprepare_packed_git().
+        if self._update_pack_cache():
+            try:
+                return self._lookup_in_packs(lambda p: p.get_raw(sha))
             except KeyError:
                 pass
         raise KeyError(hexsha)
@@ -1539,12 +1558,25 @@ class PackBasedObjectStore(PackCapableObjectStore, PackedObjectContainer):
             for o in alternate.iterobjects_subset(todo, allow_missing=True):
                 yield o
                 todo.remove(o.id)
+        missing: set[ObjectID] = set()
         for oid in todo:
             loose_obj: ShaFile | None = self._get_loose_object(oid)
             if loose_obj is not None:
                 yield loose_obj
-            elif not allow_missing:
-                raise KeyError(oid)
+            else:
+                missing.add(oid)
+        if missing:
+            # A concurrent repack may have moved these from loose storage
+            # into a new pack after the packs were searched.
+            for p in self._update_pack_cache():
+                try:
+                    for o in p.iterobjects_subset(missing, allow_missing=True):
+                        yield o
+                        missing.remove(o.id)
+                except PackFileDisappeared as exc:
+                    self._evict_pack(exc.obj)
+            if missing and not allow_missing:
+                raise KeyError(next(iter(missing)))
 
     def get_unpacked_object(
         self, sha1: bytes, *, include_comp: bool = False
